@@ -107,9 +107,54 @@ def quantized_definition(ctx, rule):
          construct='is_quantized_sequence = positive resolution')
 
 
+class _RankNames:
+  """FuncInfo look-alike in which a rank written as its number (0..3, where the module constants fold to exactly these values)
+  in a rank position - second element of a 3-tuple, or compared for (in)equality with a name - is written with the constant's
+  name again, so that the rules below can speak about ranks by name whichever way the code spells them."""
+
+  def __init__(self, ctx, fi):
+    import copy
+    fd = fold.Folder(ctx.P, ctx.S)
+    by_value = {}
+    for r in RANKS:
+      try:
+        v = fd.module_const(fi.module, r)
+      except Exception:
+        v = None
+      if isinstance(v, int) and not isinstance(v, bool):
+        by_value.setdefault(v, []).append(r)
+    by_value = dict((v, rs[0]) for v, rs in by_value.items() if len(rs) == 1)
+    node = copy.deepcopy(fi.node)
+
+    def name_of(c):
+      if isinstance(c, ast.Constant) and isinstance(c.value, int) and not isinstance(c.value, bool) and c.value in by_value:
+        return ast.copy_location(ast.Name(id=by_value[c.value], ctx=ast.Load()), c)
+      return c
+    for n in ast.walk(node):
+      if isinstance(n, ast.Tuple) and len(n.elts) == 3 and isinstance(getattr(n, 'ctx', None), ast.Load):
+        e = n.elts[1]
+        if isinstance(e, ast.IfExp):
+          e.body, e.orelse = name_of(e.body), name_of(e.orelse)
+        else:
+          n.elts[1] = name_of(e)
+      elif isinstance(n, ast.Compare) and len(n.ops) == 1 and isinstance(n.ops[0], (ast.Eq, ast.NotEq)):
+        if isinstance(n.left, ast.Name):
+          n.comparators[0] = name_of(n.comparators[0])
+        elif isinstance(n.comparators[0], ast.Name):
+          n.left = name_of(n.left)
+    self.fi, self.node, self.module, self.qualname, self.name, self.nested = fi, node, fi.module, fi.qualname, fi.name, fi.nested
+
+  def params(self):
+    return self.fi.params()
+
+  @property
+  def fq(self):
+    return self.fi.fq
+
+
 def run(ctx):
   fq = SL + ':apply_sustain_control_changes'
-  fi = ctx.func(fq)
+  fi = _RankNames(ctx, ctx.func(fq))
   fn = fi.node
   own.check_borrowed(ctx, fq, {'note_sequence': own.NS}, {}, ['note_sequence'])
   rank_in_sort_key(ctx, fi)       # location-independent rules first
